@@ -47,10 +47,11 @@ Definition agree (c : case) : bool :=
    managers read corner forms differently ("W/" , anchors kept in the wallet part), the observed
    set is checked against a band:
      hi (nothing outside may be used): offered now and covered by some specifier (or in a wallet
-        literally named by a wallet-only specifier);
+        literally named by a wallet-only specifier: W, W/ or W/.* -- "all accounts in W", which
+        dirk's short circuit extends to names with a line feed that `.` does not match);
      lo (everything inside must be used): offered now, unlockable, and covered by a plain
-        specifier (no anchor characters, no top-level alternation, at most one "/", non-empty
-        account part when there is a "/") whose wallet part is literally the wallet's name.
+        specifier (no anchor characters, at most one "/", non-empty account part when there is
+        a "/") whose wallet part is literally the wallet's name.
    Retention: the remote signer's list is never wiped by a refresh that yields nothing. *)
 Section Spec.
   Variable parse : string -> option (list re).
@@ -64,7 +65,7 @@ Section Spec.
         match rest with
         | [] => Some (strip_anchors p0, any_text, true)
         | x :: _ => if String.eqb x ""%string then Some (strip_anchors p0, any_text, true)
-                    else Some (strip_anchors p0, strip_anchors x, false)
+                    else Some (strip_anchors p0, strip_anchors x, String.eqb (strip_anchors x) any_text)
         end
     end.
 
@@ -80,12 +81,6 @@ Section Spec.
         end
     end.
 
-  Fixpoint has_char (c : ascii) (s : string) : bool :=
-    match s with
-    | EmptyString => false
-    | String x s' => Ascii.eqb x c || has_char c s'
-    end.
-
   Definition covers_lo (raw : string) (a : account) : bool :=
     negb (has_char "^"%char raw) && negb (has_char "$"%char raw) &&
     match split_slash raw with
@@ -95,7 +90,7 @@ Section Spec.
             negb (wallet_only && has_char "/"%char raw) &&
             String.eqb w (a_wallet a) &&
             match parse w, parse ac with
-            | Some [rw], Some [ra] => full_match (Seq rw (Seq slash ra)) (codes (full_name a))
+            | Some ws, Some accs => full_match (Seq (alts ws) (Seq slash (alts accs))) (codes (full_name a))
             | _, _ => false
             end
         | None => false
